@@ -188,3 +188,58 @@ def run_profiles(rng, tmpd, sizes, thorough):
     for profile, n in sizes:
         infos += eg.gen_runs(rng, tmpd, n, profile, thorough=thorough)
     return infos
+
+
+def _view(status, inp, res):
+    return "{| v_status := %s; v_input := %s; v_result := %s |}" % (
+        "None" if status is None else "(Some %s)" % ST[status], "None" if inp is None else "(Some %d)" % inp, "None" if res is None else "(Some %d)" % res)
+
+
+def c11_cases(info):
+    """per execution: (express?, [(record view, notification view, history view)] after every step, deduplicated)"""
+    out = []
+    express = info.mtype == "EXPRESS"
+    for arn in info.arns:
+        intern = Interner()
+        seq, last = [], None
+        notes = [b for b in info.broadcasts if b["body"].get("detail", {}).get("executionArn") == arn]
+        for k, s in enumerate(info.samples):
+            rec = s[arn]["record"]
+            if rec is None:
+                rv = _view(None, None, None)
+            else:
+                res = None
+                if rec.get("status") == "SUCCEEDED":
+                    res = intern(rec.get("output"))
+                elif rec.get("status") == "FAILED":
+                    res = intern(json.dumps([rec.get("error"), rec.get("cause")]))
+                rv = _view(rec.get("status"), intern(rec.get("input")), res)
+            nb = [b for b in notes if b["step"] <= k]
+            if not nb:
+                nv = _view(None, None, None)
+            else:
+                d = nb[-1]["body"]["detail"]
+                res = None
+                if d.get("status") == "SUCCEEDED":
+                    res = intern(d.get("output"))
+                elif d.get("status") == "FAILED":
+                    res = intern(json.dumps([d.get("error"), d.get("cause")]))
+                nv = _view(d.get("status"), intern(d.get("input")), res)
+            first, lastev = s[arn]["hist_first"], s[arn]["hist_last"]
+            if not first:
+                hv = _view(None, None, None)
+            else:
+                inp = intern((first.get("executionStartedEventDetails") or {}).get("input"))
+                if lastev["type"] == "ExecutionSucceeded":
+                    hv = _view("SUCCEEDED", inp, intern(lastev["executionSucceededEventDetails"].get("output")))
+                elif lastev["type"] == "ExecutionFailed":
+                    dd = lastev["executionFailedEventDetails"]
+                    hv = _view("FAILED", inp, intern(json.dumps([dd.get("error"), dd.get("cause")])))
+                else:
+                    hv = _view("RUNNING", inp, None)
+            t = "(%s, %s, %s)" % (rv, nv, hv)
+            if t != last:
+                seq.append(t)
+                last = t
+        out.append("(%s, [%s])" % (b(express), "; ".join(seq)))
+    return out
